@@ -5,6 +5,7 @@ import (
 	"fmt"
 	"math/rand"
 
+	"github.com/aclements/go-moremath/graph"
 	"github.com/aclements/go-moremath/graph/graphalg"
 )
 
@@ -12,9 +13,12 @@ import (
 // (second integer of the line):
 //
 //	1  NodeMarks history        Ops = [[code,id]...]  code 0 Mark 1 Unmark 2 Test 3 Next
+//	2  PreOrder/PostOrder/Reverse/Euler on graph G from every root in Roots
 type c18Case struct {
-	Op  int      `json:"op"`
-	Ops [][2]int `json:"ops,omitempty"`
+	Op    int      `json:"op"`
+	Ops   [][2]int `json:"ops,omitempty"`
+	G     [][]int  `json:"g,omitempty"`
+	Roots []int    `json:"roots,omitempty"`
 }
 
 const c18MaxID = 1 << 22
@@ -29,6 +33,8 @@ func c18Run(raw []byte) (*Line, error) {
 	switch c.Op {
 	case 1:
 		return c18RunMarks(&c, l)
+	case 2:
+		return c18RunTrav(&c, l)
 	}
 	return nil, fmt.Errorf("bad op %d", c.Op)
 }
@@ -215,8 +221,321 @@ func c18GenMarks(tier string, rng *rand.Rand, emit func(interface{})) {
 	}
 }
 
+// ---------------------------------------------------------------- graphs
+func c18ValidGraph(g [][]int) error {
+	if len(g) > 1<<21 {
+		return fmt.Errorf("graph too large")
+	}
+	for _, l := range g {
+		for _, v := range l {
+			if v < 0 || v >= len(g) {
+				return fmt.Errorf("edge target outside the graph")
+			}
+		}
+	}
+	return nil
+}
+
+func c18Copy(g [][]int) [][]int {
+	r := make([][]int, len(g))
+	for i, l := range g {
+		r[i] = append([]int{}, l...)
+	}
+	return r
+}
+
+func c18Same(a, b [][]int) bool {
+	if len(a) != len(b) {
+		return false
+	}
+	for i := range a {
+		if len(a[i]) != len(b[i]) {
+			return false
+		}
+		for j := range a[i] {
+			if a[i][j] != b[i][j] {
+				return false
+			}
+		}
+	}
+	return true
+}
+
+// graph on the line: n { deg target* }^n
+func (l *Line) c18Graph(g [][]int) *Line {
+	l.I(len(g))
+	for _, a := range g {
+		l.Is(a)
+	}
+	return l
+}
+
+// ---------------------------------------------------------------- op 2: traversals
+func c18RunTrav(c *c18Case, l *Line) (*Line, error) {
+	if err := c18ValidGraph(c.G); err != nil {
+		return nil, err
+	}
+	for _, r := range c.Roots {
+		if r < -c18MaxID || r > c18MaxID {
+			return nil, fmt.Errorf("bad root")
+		}
+	}
+	orig := c18Copy(c.G)
+	g := graph.IntGraph(c.G)
+	l.c18Graph(orig)
+	l.I(len(c.Roots))
+	for _, root := range c.Roots {
+		var pre, post, rev, eul, ent, ext []int
+		pan, _ := catch(func() {
+			pre = graphalg.PreOrder(g, root)
+			post = graphalg.PostOrder(g, root)
+			rev = graphalg.Reverse(graphalg.PostOrder(g, root))
+			graphalg.Euler{Enter: func(n int) { eul = append(eul, 2*n) }, Exit: func(n int) { eul = append(eul, 2*n+1) }}.Visit(g, root)
+			graphalg.Euler{Enter: func(n int) { ent = append(ent, 2*n) }}.Visit(g, root)
+			graphalg.Euler{Exit: func(n int) { ext = append(ext, 2*n+1) }}.Visit(g, root)
+		})
+		if pan {
+			l.I(root).I(2).I(0).I(0).I(0).I(0).I(0).I(0)
+			continue
+		}
+		l.I(root).I(0).Is(pre).Is(post).Is(rev).Is(eul).Is(ent).Is(ext)
+	}
+	l.B(c18Same(orig, c.G))
+	return l, nil
+}
+
+// every digraph on n nodes (self-loops allowed) is a mask of n*n bits; adjacency ascending
+func c18MaskGraph(n int, mask uint64) [][]int {
+	g := make([][]int, n)
+	for i := 0; i < n; i++ {
+		g[i] = []int{}
+		for j := 0; j < n; j++ {
+			if mask>>(uint(i*n+j))&1 == 1 {
+				g[i] = append(g[i], j)
+			}
+		}
+	}
+	return g
+}
+
+// shuffle adjacency order and double some edges (multiplicity <= 2)
+func c18Variant(rng *rand.Rand, g [][]int) [][]int {
+	r := make([][]int, len(g))
+	for i, l := range g {
+		a := append([]int{}, l...)
+		for _, v := range l {
+			if rng.Intn(3) == 0 {
+				a = append(a, v)
+			}
+		}
+		rng.Shuffle(len(a), func(x, y int) { a[x], a[y] = a[y], a[x] })
+		r[i] = a
+	}
+	return r
+}
+
+func c18RandGraph(rng *rand.Rand, n int) [][]int {
+	g := make([][]int, n)
+	avg := []float64{0.3, 1, 1.5, 2.5, 5}[rng.Intn(5)]
+	for i := range g {
+		g[i] = []int{}
+		d := 0
+		for rng.Float64() < avg/(avg+1) && d < 3*n+3 {
+			d++
+		}
+		for k := 0; k < d; k++ {
+			switch rng.Intn(8) {
+			case 0:
+				g[i] = append(g[i], i) // self-loop
+			case 1:
+				if len(g[i]) > 0 {
+					g[i] = append(g[i], g[i][rng.Intn(len(g[i]))]) // parallel edge
+					break
+				}
+				fallthrough
+			default:
+				g[i] = append(g[i], rng.Intn(n))
+			}
+		}
+	}
+	return g
+}
+
+// structured graphs on n nodes under a relabelling of the node ids:
+// kind 0 path, 1 cycle, 2 binary tree, 3 DAG layers, 4 cycle chain (many SCCs), 5 random tree with back edges
+func c18Structured(rng *rand.Rand, kind, n, relabel int) [][]int {
+	perm := make([]int, n)
+	for i := range perm {
+		perm[i] = i
+	}
+	switch relabel {
+	case 1:
+		for i := range perm {
+			perm[i] = n - 1 - i
+		}
+	case 2:
+		rng.Shuffle(n, func(x, y int) { perm[x], perm[y] = perm[y], perm[x] })
+	}
+	g := make([][]int, n)
+	for i := range g {
+		g[i] = []int{}
+	}
+	add := func(u, v int) { g[perm[u]] = append(g[perm[u]], perm[v]) }
+	switch kind {
+	case 0:
+		for i := 0; i+1 < n; i++ {
+			add(i, i+1)
+		}
+	case 1:
+		for i := 0; i < n; i++ {
+			add(i, (i+1)%n)
+		}
+	case 2:
+		for i := 0; i < n; i++ {
+			if 2*i+1 < n {
+				add(i, 2*i+1)
+			}
+			if 2*i+2 < n {
+				add(i, 2*i+2)
+			}
+		}
+	case 3:
+		w := 1 + rng.Intn(40)
+		for i := 0; i < n; i++ {
+			layer := i / w
+			for k := 0; k < 1+rng.Intn(3); k++ {
+				j := (layer+1)*w + rng.Intn(w)
+				if j < n {
+					add(i, j)
+				}
+			}
+		}
+	case 4:
+		w := 2 + rng.Intn(30)
+		for i := 0; i < n; i++ {
+			base := i / w * w
+			j := base + (i-base+1)%w
+			if j >= n {
+				j = base
+			}
+			add(i, j)
+			if i%w == 0 && i+w < n {
+				add(i, i+w)
+			}
+		}
+	default:
+		for i := 1; i < n; i++ {
+			add(rng.Intn(i), i)
+		}
+		for k := 0; k < n/8; k++ {
+			add(rng.Intn(n), rng.Intn(n))
+		}
+	}
+	return g
+}
+
+func c18Sizes(tier string) []int {
+	s := []int{31, 33, 1023, 1024, 1025, 2047, 2049, 4097, 5000}
+	if tier == "thorough" {
+		s = append(s, 8191, 8193, 16385, 32769, 65537, 100000)
+	}
+	return s
+}
+
+func c18Roots(rng *rand.Rand, n, k int) []int {
+	var r []int
+	if n == 0 {
+		return []int{0}
+	}
+	for i := 0; i < k; i++ {
+		r = append(r, rng.Intn(n))
+	}
+	return r
+}
+
+func c18AllRoots(n int) []int {
+	r := []int{}
+	for i := 0; i < n; i++ {
+		r = append(r, i)
+	}
+	return r
+}
+
+func c18GenTrav(tier string, rng *rand.Rand, emit func(interface{})) {
+	thorough := tier == "thorough"
+	// (a) every digraph on <= 4 nodes with every root; a shuffled / doubled-edge variant of a sample
+	for n := 1; n <= 4; n++ {
+		for mask := uint64(0); mask < 1<<uint(n*n); mask++ {
+			g := c18MaskGraph(n, mask)
+			emit(c18Case{Op: 2, G: g, Roots: c18AllRoots(n)})
+			if n < 4 || rng.Intn(4) == 0 || thorough {
+				emit(c18Case{Op: 2, G: c18Variant(rng, g), Roots: c18AllRoots(n)})
+			}
+		}
+	}
+	if thorough {
+		// 5 nodes: every loop-free digraph, self-loops / doubling / order drawn at random
+		for mask := uint64(0); mask < 1<<20; mask++ {
+			var full uint64
+			b := 0
+			for i := 0; i < 5; i++ {
+				for j := 0; j < 5; j++ {
+					if i == j {
+						if rng.Intn(4) == 0 {
+							full |= 1 << uint(i*5+j)
+						}
+						continue
+					}
+					if mask>>uint(b)&1 == 1 {
+						full |= 1 << uint(i*5+j)
+					}
+					b++
+				}
+			}
+			g := c18MaskGraph(5, full)
+			if rng.Intn(2) == 0 {
+				g = c18Variant(rng, g)
+			}
+			emit(c18Case{Op: 2, G: g, Roots: c18AllRoots(5)})
+		}
+	}
+	// malformed: roots outside the graph, empty graph
+	emit(c18Case{Op: 2, G: [][]int{}, Roots: []int{0, -1}})
+	emit(c18Case{Op: 2, G: [][]int{{0}}, Roots: []int{1, -1, 0}})
+	emit(c18Case{Op: 2, G: [][]int{{1}, {0}}, Roots: []int{2, 0, -3}})
+	// (b) random multigraphs up to 60 nodes
+	nRand := 1500
+	if thorough {
+		nRand = 30000
+	}
+	for it := 0; it < nRand; it++ {
+		n := 1 + rng.Intn(60)
+		if rng.Intn(4) == 0 {
+			n = 1 + rng.Intn(8)
+		}
+		emit(c18Case{Op: 2, G: c18RandGraph(rng, n), Roots: c18Roots(rng, n, 3)})
+	}
+	// (c) structured graphs whose node ids cross the storage growth boundaries
+	for _, n := range c18Sizes(tier) {
+		for kind := 0; kind < 6; kind++ {
+			for relabel := 0; relabel < 3; relabel++ {
+				if n > 20000 && relabel == 1 && kind > 1 {
+					continue
+				}
+				g := c18Structured(rng, kind, n, relabel)
+				roots := []int{0, n - 1}
+				if relabel == 2 {
+					roots = c18Roots(rng, n, 2)
+				}
+				emit(c18Case{Op: 2, G: g, Roots: roots})
+			}
+		}
+	}
+}
+
 func c18Gen(tier string, rng *rand.Rand, emit func(interface{})) {
 	c18GenMarks(tier, rng, emit)
+	c18GenTrav(tier, rng, emit)
 }
 
 func init() { register(&Prop{ID: "C18", Num: 18, Gen: c18Gen, Run: c18Run}) }
